@@ -179,8 +179,12 @@ def run(ctx):
             else:
                 r.fail(rule, 'nonce-binding', 'authenticate_endpoint is not given the session\'s current nonce', detail=last, loc=ae[0].loc)
         sn = [c for c in b.calls() if c.callee.endswith('Session::set_session_nonce')]
-        if len(sn) == 1 and 'random_nonce' in fmt_sym(b, F.sym_operand(sn[0].args[1])):
-            r.ok(rule, 'fresh-nonce', 'a fresh random nonce is stored on successful activation', loc=sn[0].loc)
+        resp = [bi for bi, blk in enumerate(b.blocks) if not blk['c'] for st in blk['s']
+                if st[0] == '=' and st[2][0] == 'agg' and str(st[2][2]).endswith('ActivateSessionResponse')]
+        if not resp:
+            r.lost(rule, 'response', 'ActivateSessionResponse construction not found')
+        if len(sn) == 1 and 'random_nonce' in fmt_sym(b, F.sym_operand(sn[0].args[1])) and resp and all(b.dominates(sn[0].bb, bi) for bi in resp):
+            r.ok(rule, 'fresh-nonce', 'a fresh random nonce is stored on every path to the ActivateSessionResponse', loc=sn[0].loc)
         else:
-            r.fail(rule, 'fresh-nonce', 'activation does not store a fresh random nonce (an old encrypted password could be replayed)', loc=b.loc)
+            r.fail(rule, 'fresh-nonce', 'a successful activation can be answered without a fresh random nonce having been stored in the session (the store is missing or conditional): a password encrypted for the previous nonce can be replayed', loc=b.loc)
     r.floor('C20', 'obligations', len(r.obls), 12)
